@@ -135,7 +135,7 @@ def st_rigid():
     return st.tuples(rot, shift.map(lambda t: np.array(t)))
 
 
-def st_mini(files, max_extra=2):
+def st_mini(files, max_extra=4):
     """(file, residue indices, per-residue small rigid perturbations)"""
     from hypothesis import strategies as st
 
@@ -164,7 +164,12 @@ def st_mini(files, max_extra=2):
                 ang = draw(st.floats(-lim_a, lim_a))
                 tr = [draw(st.floats(-lim_t, lim_t)) for _ in range(3)]
                 moves.append([axis, ang, tr])
-        return {"kind": "mini", "file": fn, "residues": idx, "moves": moves}
+        # targeted thinning: atoms that decide normals, cis/trans, edges or BPh/BR classes may be absent
+        drops = []
+        for _ in range(draw(st.sampled_from([0, 0, 0, 1, 1, 2]))):
+            drops.append([draw(st.integers(0, len(idx) - 1)),
+                          draw(st.sampled_from(["C1'", "C1'", "N9", "N1", "N7", "N3", "C4", "O2", "O2'", "C2", "N6", "O6", "N4", "O4", "P", "OP1", "C8", "C6"]))])
+        return {"kind": "mini", "file": fn, "residues": idx, "moves": moves, "drop": drops}
 
     return build()
 
@@ -186,4 +191,11 @@ def build_mini(case):
         R, t = m
         return R @ (xyz - cents[ri]) + cents[ri] + t
 
-    return rebuild(s3, keep=set(idx), point_fn=pf)
+    dropped = {}
+    for slot, name in case.get("drop", []):
+        dropped.setdefault(idx[slot % len(idx)], set()).add(name)
+
+    def ak(ri, k):
+        return s3.residues[ri].atoms[k].name not in dropped.get(ri, ())
+
+    return rebuild(s3, keep=set(idx), point_fn=pf, atom_keep=ak if dropped else None)
